@@ -18,7 +18,8 @@ def c12():
                      "C12_centroid_majority", "C12_tanimoto_exact", "C12_tanimoto_empty_union",
                      "C12_range", "C12_matrix_entry", "C12_matrix_symmetric",
                      "C12_most_dissimilar", "C12_medoid", "C12_source_tie_centroid",
-                     "C12_nonvacuous"],
+                     "C12_nonvacuous",
+                     "C12_first_pole_farthest_from_centroid", "C12_second_pole_farthest_from_first", "C12_poles_exact_rational", "C12_pole_self_similarity", "C12_medoid_small", "C12_medoid_in_range_always", "C12_medoid_first_nan", "C12_compl_isim_is_leave_one_out", "C12_centroid_single_row", "C12_centroid_of_rows_majority", "C12_centroid_single_member_cast"],
         "suites": [suite_bits.suite_bits, __import__('suite_numpysem').suite_numpysem],
         "search": oracles.search_c12,
         "replay": oracles.replay_c12,
@@ -406,7 +407,8 @@ def c18():
         "props_file": "Props/C18.v",
         "theorems": ["C18_assignments", "C18_same_label_same_cluster", "C18_never_unlabeled",
                      "C18_refused", "C18_sorted_largest_first", "C18_sklearn_labels",
-                     "C18_predict_is_argmin", "C18_jaccard_symmetric"],
+                     "C18_predict_is_argmin", "C18_jaccard_symmetric",
+                     "C18_sk_transform_shape", "C18_sk_transform_entry", "C18_jaccard_is_one_minus_tanimoto_exact", "C18_jaccard_range", "C18_sk_predict_range"],
         "model_files": ["Model/Obs.v", "Model/ObsBits.v", "Model/Labels.v"],
         "suites": [suite_labels.suite_labels, suite_labels.suite_label_states],
         "search": suite_labels.search_c18,
@@ -466,7 +468,8 @@ def c19():
         "theorems": ["C19_selection", "C19_selection_maximal", "C19_counts", "C19_isim_direct",
                      "C19_member_order_irrelevant", "C19_dunn_rows", "C19_dunn_clusters",
                      "C19_chi_clusters", "C19_chi_rows", "C19_dbi_clusters",
-                     "C19_dunn_singleton_refuted"],
+                     "C19_dunn_singleton_refuted",
+                     "C19_analysis_singletons", "C19_analysis_clusters_above", "C19_analysis_total_is_rows", "C19_analysis_counts_perm", "C19_analysis_counts_rows", "C19_dbi_terms_row_order", "C19_dbi_matrix_entry", "C19_dbi_matrix_symmetric", "C19_dbi_matrix_cluster_order", "C19_chi_terms_spec", "C19_chi_global_centroid_invariant", "C19_dunn_cluster_order_no_singletons"],
         "model_files": ["Model/Analysis.v", "Model/ObsBits.v"],
         "suites": [suite_analysis.suite_analysis, suite_analysis.suite_indices],
         "search": suite_analysis.search_c19,
@@ -552,7 +555,8 @@ def c05():
         "props_file": "Props/C05.v",
         "theorems": ["C05_partition_and_centroids", "C05_pairs_aligned", "C05_handed_over",
                      "C05_any_directory", "C05_nonvacuous", "C05_centroids_are_majority",
-                     "C05_source_tie_names", "C05_source_tie_globs"],
+                     "C05_source_tie_names", "C05_source_tie_globs",
+                     "C05_run_succeeds"],
         "model_files": ["Model/Multiround.v", "Gen/GMr.v", "Proofs/GenTieMr.v"],
         "suites": [suite_mr.suite_mr_files, suite_mr.suite_mr_big],
         "search": suite_mr.search_mr("C05"),
